@@ -1189,3 +1189,429 @@ func TestT20SequenceParity(t *testing.T) {
 		}
 	}
 }
+
+// 21: C15 sweep - a source that fails with its own error after delivering a prefix (at every byte position,
+// error alone or together with the last bytes): the Reader hands out a correct prefix of the data, then returns
+// exactly that error, and keeps returning it without touching the source again.
+type failingSrc struct {
+	data     []byte
+	chunk    int
+	withData bool
+	err      error
+	after    int // calls after the failure
+	failed   bool
+}
+
+func (f *failingSrc) Read(p []byte) (int, error) {
+	if f.failed {
+		f.after++
+		return 0, f.err
+	}
+	n := f.chunk
+	if n > len(p) {
+		n = len(p)
+	}
+	if n >= len(f.data) {
+		n = copy(p, f.data)
+		f.data = nil
+		if f.withData || n == 0 {
+			f.failed = true
+			return n, f.err
+		}
+		return n, nil
+	}
+	copy(p, f.data[:n])
+	f.data = f.data[n:]
+	return n, nil
+}
+
+func TestT21FailingSourceSweep(t *testing.T) {
+	payload := randText(5000, 21)
+	mk := map[string][]byte{}
+	{
+		var b bytes.Buffer
+		w, _ := stdflate.NewWriter(&b, 6)
+		w.Write(payload[:2500])
+		w.Flush()
+		w.Write(payload[2500:])
+		w.Close()
+		mk["flate"] = b.Bytes()
+	}
+	{
+		var b bytes.Buffer
+		w := stdzlib.NewWriter(&b)
+		w.Write(payload)
+		w.Close()
+		mk["zlib"] = b.Bytes()
+	}
+	{
+		var b bytes.Buffer
+		for i := 0; i < 2; i++ {
+			w := gzip.NewWriter(&b)
+			w.Name = "a name"
+			w.Write(payload[i*2500 : (i+1)*2500])
+			w.Close()
+		}
+		mk["gzip"] = b.Bytes()
+	}
+	open := map[string]func(io.Reader) (io.Reader, error){
+		"flate": func(r io.Reader) (io.Reader, error) { return flate.NewReader(r), nil },
+		"zlib":  func(r io.Reader) (io.Reader, error) { return zlib.NewReader(r) },
+		"gzip":  func(r io.Reader) (io.Reader, error) { return gzip.NewReader(r) },
+	}
+	for name, stream := range mk {
+		bad := 0
+		for cut := 0; cut < len(stream); cut++ {
+			for _, withData := range []bool{false, true} {
+				for _, chunk := range []int{1, 7, 4096} {
+					src := &failingSrc{data: append([]byte(nil), stream[:cut]...), chunk: chunk, withData: withData, err: errSourceGone}
+					r, err := open[name](src)
+					var got []byte
+					opened := err == nil
+					if err == nil {
+						buf := make([]byte, 300)
+						for err == nil {
+							var n int
+							n, err = r.Read(buf)
+							got = append(got, buf[:n]...)
+						}
+					}
+					after := src.after
+					var again error
+					if opened {
+						_, again = r.Read(make([]byte, 10))
+					}
+					switch {
+					case err != errSourceGone:
+						bad++
+						if bad < 4 {
+							t.Errorf("%s cut %d chunk %d withData %v: got error %v, want the source's error (after %d bytes)", name, cut, chunk, withData, err, len(got))
+						}
+					case !bytes.HasPrefix(payload, got):
+						bad++
+						if bad < 4 {
+							t.Errorf("%s cut %d: bytes before the error are not a prefix of the data", name, cut)
+						}
+					case opened && (again != errSourceGone || src.after != after):
+						bad++
+						if bad < 4 {
+							t.Errorf("%s cut %d chunk %d: after the error: %v, source touched %d more times", name, cut, chunk, again, src.after-after)
+						}
+					}
+				}
+			}
+		}
+		if bad > 0 {
+			t.Errorf("%s: %d schedules fail", name, bad)
+		}
+	}
+}
+
+// 22: C05 sweep - with a caller-supplied *bufio.Reader the source is left exactly after the last byte of the
+// stream (flate), the trailer (zlib) or the member (gzip, Multistream(false)), whatever the buffer size,
+// the delivery and the shape of the stream's tail.
+func TestT22ExactPositionSweep(t *testing.T) {
+	r := rand.New(rand.NewSource(22))
+	tail := []byte("TRAILING-DATA-0123456789-the-next-record-starts-here")
+	fails := 0
+	for iter := 0; iter < 3000 && fails < 6; iter++ {
+		n := r.Intn(3000)
+		if iter%5 == 0 {
+			n = r.Intn(140000)
+		}
+		data := randText(n, int64(iter))
+		if iter%3 == 0 {
+			r.Read(data[:n/2])
+		}
+		lvl := []int{0, 1, 6, 9, -2}[iter%5]
+		kind := iter % 3
+		var b bytes.Buffer
+		switch kind {
+		case 0:
+			w, _ := stdflate.NewWriter(&b, lvl)
+			w.Write(data[:n/2])
+			if iter%2 == 0 {
+				w.Flush()
+			}
+			w.Write(data[n/2:])
+			w.Close()
+		case 1:
+			w, _ := stdzlib.NewWriterLevel(&b, lvl)
+			w.Write(data)
+			w.Close()
+		case 2:
+			w, _ := gzip.NewWriterLevel(&b, lvl)
+			w.Write(data)
+			w.Close()
+		}
+		stream := append(b.Bytes(), tail...)
+		br := bufio.NewReaderSize(&fixedChunks{data: stream, size: func() int { return 1 + r.Intn(300) }}, 16+r.Intn(5000))
+		var rd io.Reader
+		var err error
+		switch kind {
+		case 0:
+			rd = flate.NewReader(br)
+		case 1:
+			rd, err = zlib.NewReader(br)
+		case 2:
+			var g *gzip.Reader
+			g, err = gzip.NewReader(br)
+			if err == nil {
+				g.Multistream(false)
+				rd = g
+			}
+		}
+		if err != nil {
+			t.Fatalf("iter %d: open: %v", iter, err)
+		}
+		got, err := io.ReadAll(rd)
+		if err != nil || !bytes.Equal(got, data) {
+			fails++
+			t.Errorf("iter %d kind %d level %d: decode: %d bytes err %v", iter, kind, lvl, len(got), err)
+			continue
+		}
+		rest, _ := io.ReadAll(br)
+		if !bytes.Equal(rest, tail) {
+			fails++
+			t.Errorf("iter %d kind %d level %d n %d: source left at %q..., want the %d trailing bytes", iter, kind, lvl, n, rest[:minInt(len(rest), 20)], len(tail))
+		}
+	}
+}
+
+func minInt(a, b int) int {
+	if a < b {
+		return a
+	}
+	return b
+}
+
+// 23: C13 sweep - gzip and zlib Readers: after any history (partial read, truncated stream, corrupt stream,
+// complete read) Reset(src) behaves like a new Reader on src, for valid and damaged next streams.
+func TestT23ContainerResetSweep(t *testing.T) {
+	r := rand.New(rand.NewSource(23))
+	mkz := func(data []byte, lvl int) []byte {
+		var b bytes.Buffer
+		w, _ := stdzlib.NewWriterLevel(&b, lvl)
+		w.Write(data)
+		w.Close()
+		return b.Bytes()
+	}
+	mkg := func(data []byte, lvl int) []byte {
+		var b bytes.Buffer
+		w, _ := gzip.NewWriterLevel(&b, lvl)
+		w.Name = "n"
+		w.Write(data)
+		w.Close()
+		return b.Bytes()
+	}
+	damage := func(s []byte) []byte {
+		s = append([]byte(nil), s...)
+		switch r.Intn(4) {
+		case 0:
+			return s
+		case 1:
+			return s[:r.Intn(len(s))]
+		case 2:
+			s[r.Intn(len(s))] ^= 1 << uint(r.Intn(8))
+		case 3:
+			s = append(s, s...)
+		}
+		return s
+	}
+	readSome := func(rd io.Reader, limit int) {
+		buf := make([]byte, 1+r.Intn(3000))
+		for limit > 0 {
+			n, err := rd.Read(buf)
+			limit -= n
+			if err != nil || n == 0 {
+				return
+			}
+		}
+	}
+	fails := 0
+	for iter := 0; iter < 4000 && fails < 6; iter++ {
+		lvl := []int{0, 1, 6, -2}[iter%4]
+		first := damage(mkz(randText(r.Intn(100000), int64(iter)), lvl))
+		next := damage(mkz(randText(r.Intn(60000), int64(iter)+7), lvl))
+		isGzip := iter%2 == 1
+		if isGzip {
+			first = damage(mkg(randText(r.Intn(100000), int64(iter)), lvl))
+			next = damage(mkg(randText(r.Intn(60000), int64(iter)+7), lvl))
+		}
+		var used io.Reader
+		var reset func(io.Reader) error
+		var fresh func(io.Reader) (io.Reader, error)
+		if isGzip {
+			g, err := gzip.NewReader(bytes.NewReader(first))
+			if err != nil {
+				continue
+			}
+			used = g
+			reset = func(s io.Reader) error { return g.Reset(s) }
+			fresh = func(s io.Reader) (io.Reader, error) { return gzip.NewReader(s) }
+		} else {
+			z, err := zlib.NewReader(bytes.NewReader(first))
+			if err != nil {
+				continue
+			}
+			used = z
+			reset = func(s io.Reader) error { return z.(zlib.Resetter).Reset(s, nil) }
+			fresh = func(s io.Reader) (io.Reader, error) { return zlib.NewReader(s) }
+		}
+		readSome(used, r.Intn(120000))
+		e1 := reset(bufio.NewReader(bytes.NewReader(next)))
+		f, e2 := fresh(bufio.NewReader(bytes.NewReader(next)))
+		if (e1 == nil) != (e2 == nil) {
+			fails++
+			t.Errorf("iter %d gzip=%v: Reset %v, fresh %v", iter, isGzip, e1, e2)
+			continue
+		}
+		if e1 != nil {
+			continue
+		}
+		a, ea := io.ReadAll(used)
+		b, eb := io.ReadAll(f)
+		if !bytes.Equal(a, b) || (ea == nil) != (eb == nil) || (ea != nil && ea.Error() != eb.Error()) {
+			fails++
+			t.Errorf("iter %d gzip=%v level %d: after Reset %d bytes err %v; fresh %d bytes err %v", iter, isGzip, lvl, len(a), ea, len(b), eb)
+		}
+	}
+}
+
+// 24: C14 sweep - the destination fails at its k-th call (every k): the operation in progress returns that
+// error, every later Write/Flush/Close fails too and the destination is not called again.
+type dstFailAt struct {
+	k, calls int
+}
+
+func (d *dstFailAt) Write(p []byte) (int, error) {
+	d.calls++
+	if d.calls >= d.k {
+		return 0, errBoom
+	}
+	return len(p), nil
+}
+
+func TestT24FailingDestinationSweep(t *testing.T) {
+	type wr interface {
+		Write([]byte) (int, error)
+		Flush() error
+		Close() error
+	}
+	data := randText(150000, 24)
+	mk := map[string]func(io.Writer, int) wr{
+		"flate": func(w io.Writer, l int) wr { x, _ := flate.NewWriter(w, l); return x },
+		"gzip":  func(w io.Writer, l int) wr { x, _ := gzip.NewWriterLevel(w, l); return x },
+		"zlib":  func(w io.Writer, l int) wr { x, _ := zlib.NewWriterLevel(w, l); return x },
+	}
+	script := func(w wr, log *[]error) {
+		step := func(e error) { *log = append(*log, e) }
+		_, e := w.Write(data[:10])
+		step(e)
+		step(w.Flush())
+		_, e = w.Write(data[10:90000])
+		step(e)
+		_, e = w.Write(data[90000:])
+		step(e)
+		step(w.Flush())
+		step(w.Close())
+		_, e = w.Write(data[:5])
+		step(e)
+		step(w.Flush())
+		step(w.Close())
+	}
+	for name, f := range mk {
+		for _, lvl := range []int{-2, 1, 2, 0, 6} {
+			// how many destination calls does the fault-free run make?
+			free := &dstFailAt{k: 1 << 30}
+			var l0 []error
+			script(f(free, lvl), &l0)
+			bad := 0
+			for k := 1; k <= free.calls; k++ {
+				d := &dstFailAt{k: k}
+				var log []error
+				w := f(d, lvl)
+				script(w, &log)
+				first := -1
+				for i, e := range log {
+					if e != nil {
+						first = i
+						break
+					}
+				}
+				ok := first >= 0 && first <= 5
+				if ok {
+					for _, e := range log[first:] {
+						if e == nil {
+							ok = false
+						}
+					}
+				}
+				if d.calls != k {
+					ok = false
+				}
+				if !ok {
+					bad++
+					if bad < 3 {
+						t.Errorf("%s level %d k=%d: results %v, destination called %d times", name, lvl, k, log, d.calls)
+					}
+				}
+			}
+			if bad > 0 {
+				t.Errorf("%s level %d: %d of %d fault positions misbehave", name, lvl, bad, free.calls)
+			}
+		}
+	}
+}
+
+// 25: C17 - independent Writers and Readers used from different goroutines do not interfere
+// (run with -race: `go test -race -run TestT25`).
+func TestT25ConcurrentInstances(t *testing.T) {
+	done := make(chan string, 16)
+	for g := 0; g < 16; g++ {
+		go func(g int) {
+			data := randText(200000+g*1000, int64(g))
+			if g%3 == 0 {
+				rand.New(rand.NewSource(int64(g))).Read(data[:50000])
+			}
+			for round := 0; round < 3; round++ {
+				lvl := []int{-2, 1, 2, 6}[(g+round)%4]
+				var b bytes.Buffer
+				var w interface {
+					Write([]byte) (int, error)
+					Close() error
+				}
+				switch g % 3 {
+				case 0:
+					w, _ = flate.NewWriter(&b, lvl)
+				case 1:
+					w, _ = gzip.NewWriterLevel(&b, lvl)
+				default:
+					w, _ = zlib.NewWriterLevel(&b, lvl)
+				}
+				w.Write(data)
+				w.Close()
+				var rd io.Reader
+				switch g % 3 {
+				case 0:
+					rd = flate.NewReader(bytes.NewReader(b.Bytes()))
+				case 1:
+					rd, _ = gzip.NewReader(bytes.NewReader(b.Bytes()))
+				default:
+					rd, _ = zlib.NewReader(bytes.NewReader(b.Bytes()))
+				}
+				got, err := io.ReadAll(rd)
+				if err != nil || !bytes.Equal(got, data) {
+					done <- fmt.Sprintf("goroutine %d round %d: %d bytes err %v", g, round, len(got), err)
+					return
+				}
+			}
+			done <- ""
+		}(g)
+	}
+	for g := 0; g < 16; g++ {
+		if s := <-done; s != "" {
+			t.Error(s)
+		}
+	}
+}
